@@ -120,7 +120,14 @@ func (g tg) bounded(size int) string {
 
 func (g tg) cjkText(n int, punct bool) string {
 	var sb strings.Builder
+	// U+FFFD is an ordinary, validly encoded character (it is what a decoder
+	// leaves where the source had undecodable bytes); some texts carry many
+	fffd := g.r.Intn(3) == 0
 	for i := 0; i < n; i++ {
+		if fffd && g.r.Intn(4) == 0 {
+			sb.WriteRune('\uFFFD')
+			continue
+		}
 		sb.WriteRune(cjk[g.r.Intn(len(cjk))])
 		if punct && g.r.Intn(20) == 0 {
 			sb.WriteString([]string{"。", "、", "！", "　"}[g.r.Intn(4)])
